@@ -1,6 +1,8 @@
 """C17 - ground-truth lookup picks the nearest frame in tolerance; interpolation is exact."""
 from __future__ import annotations
 
+import inspect
+
 import math
 from typing import Any, Dict, List, Optional, Tuple
 
@@ -41,9 +43,15 @@ JOBS = {"quick": 2, "thorough": 14}
 
 def install(taps: Taps, ctx: Ctx) -> None:
     def now_factory(orig):
-        def get_now_frame(ground_truth_frames, unix_time, threshold_min_time):
-            out = orig(ground_truth_frames, unix_time, threshold_min_time)
-            guarded(ctx, "get_now_frame", lambda: judge_now(ctx, list(ground_truth_frames), unix_time, threshold_min_time, out))
+        sig = inspect.signature(orig)
+
+        def get_now_frame(*args, **kwargs):
+            # (the tap passes the call through unchanged and reads the effective arguments from the function's own signature)
+            out = orig(*args, **kwargs)
+            b = sig.bind(*args, **kwargs)
+            b.apply_defaults()
+            a = b.arguments
+            guarded(ctx, "get_now_frame", lambda: judge_now(ctx, list(a["ground_truth_frames"]), a["unix_time"], a["threshold_min_time"], out))
             return out
 
         return get_now_frame
@@ -51,9 +59,14 @@ def install(taps: Taps, ctx: Ctx) -> None:
     taps.fn(ds_mod, "get_now_frame", now_factory)
 
     def interp_factory(orig):
-        def get_interpolated_now_frame(ground_truth_frames, unix_time, threshold_min_time):
-            out = orig(ground_truth_frames, unix_time, threshold_min_time)
-            guarded(ctx, "get_interpolated_now_frame", lambda: judge_interp(ctx, list(ground_truth_frames), unix_time, threshold_min_time, out))
+        sig = inspect.signature(orig)
+
+        def get_interpolated_now_frame(*args, **kwargs):
+            out = orig(*args, **kwargs)
+            b = sig.bind(*args, **kwargs)
+            b.apply_defaults()
+            a = b.arguments
+            guarded(ctx, "get_interpolated_now_frame", lambda: judge_interp(ctx, list(a["ground_truth_frames"]), a["unix_time"], a["threshold_min_time"], out))
             return out
 
         return get_interpolated_now_frame
@@ -250,8 +263,14 @@ def run(ctx: Ctx) -> None:
                     for q in range(12):
                         t = r.choice(ts) + r.choice([0, 1, -1, 40_000, -40_000, 74_999, 75_001, 10_000_000])
                         interp = r.random() < 0.6
-                        tol = r.choice([75_000, 75_000, 600_000])
+                        tol = r.choice([75_000, 75_000, 600_000, 10_000, 200_000])
                         ctx.count("C17.manager_lookups")
-                        run_.manager.get_ground_truth_now_frame(t, threshold_min_time=tol, interpolate_ground_truth=interp)
+                        out = run_.manager.get_ground_truth_now_frame(t, threshold_min_time=tol, interpolate_ground_truth=interp)
+                        # the manager's answer is judged against the tolerance its caller asked for
+                        gtf = list(run_.manager.ground_truth_frames)
+                        if interp:
+                            guarded(ctx, "manager_lookup", lambda: judge_interp(ctx, gtf, t, tol, out))
+                        else:
+                            guarded(ctx, "manager_lookup", lambda: judge_now(ctx, gtf, t, tol, out))
                     ctx.case(("manager", frame_id), nontrivial=True)
         ctx.notes["taps"] = taps.installed
